@@ -14,7 +14,7 @@ a pristine per-item reference, reference by construction.
 import copy
 import re
 
-from .core import H, rng_for, digest, dumps, sha, jdump, iteration_order, HarnessError
+from .core import H, rng_for, digest, dumps, sha, jdump, iteration_order, HarnessError, raised_in_harness
 from . import gen_mol
 
 MALFORMED = [
@@ -355,6 +355,8 @@ class _Run:
         except StopIteration:
             event["out"] = "stop"
         except Exception as exc:  # noqa - whatever the library raises is an outcome
+            if isinstance(exc, HarnessError) or raised_in_harness(exc):
+                raise HarnessError("harness bug in op %s: %s: %s" % (op["op"], type(exc).__name__, exc))
             event["out"] = _outcome(exc)
         finally:
             if inj is not None:
